@@ -312,6 +312,7 @@ fn main() {
             // vh candsearch <N> <start> <count> <outfile>
             seeds::candsearch(args[2].parse().unwrap(), args[3].parse().unwrap(), args[4].parse().unwrap(), &args[5]);
         }
+        "stalesearch" => seeds::stalesearch(&args[2]),
         "keysearch" => {
             // vh keysearch <N> <start> <count> <outfile>
             seeds::keysearch(args[2].parse().unwrap(), args[3].parse().unwrap(), args[4].parse().unwrap(), &args[5]);
